@@ -208,6 +208,14 @@ var ruleDynCalls = &core.Rule{ID: "R01.3", Min: 4,
 							continue
 						}
 					}
+					if ia, ok := v.X.(*ssa.IndexAddr); ok {
+						// element of a list of detectors captured by a combinator closure (anyOf(d1, d2)): every
+						// construction passes a literal list of initialised package-level detectors or functions
+						if why, isList := capturedFuncList(f, ia.X); isList {
+							s.Check(why == "", key, c.Pos(ci.Pos()), "element of a captured list of initialised detectors at every construction", "the combinator may be handed a nil or unknown function: "+why)
+							continue
+						}
+					}
 					if g, ok := v.X.(*ssa.Global); ok {
 						_, ctor, _ := tree.ClosureOfGlobal(g.Pkg, g)
 						fn, _, _ := tree.ClosureOfGlobal(g.Pkg, g)
@@ -637,6 +645,150 @@ var ruleSCC = &core.Rule{ID: "R16.1", Min: 2,
 		s.Check(len(sccs) >= 2, "recursive components found", "-", fmt.Sprint(len(sccs)), "fewer recursive components than the walk and the scanner")
 		_ = types.Typ
 	}}
+
+// capturedFuncList: list (inside closure f) is the content of a captured
+// variable that the constructor of f filled, once, with its own variadic
+// parameter. isList says whether the shape applies; why is empty when every
+// call of the constructor hands over a literal list whose elements are
+// function constants, closures, or package-level detectors stored (once, with a
+// closure or function) earlier in the same initialiser.
+func capturedFuncList(f *ssa.Function, list ssa.Value) (why string, isList bool) {
+	ld, ok := list.(*ssa.UnOp)
+	if !ok || ld.Op != token.MUL {
+		return "", false
+	}
+	fv, ok := ld.X.(*ssa.FreeVar)
+	ctor := f.Parent()
+	if !ok || ctor == nil {
+		return "", false
+	}
+	idx := -1
+	for i, x := range f.FreeVars {
+		if x == fv {
+			idx = i
+		}
+	}
+	// the cell bound at the single MakeClosure of f in ctor, stored once with a parameter of ctor
+	var cell *ssa.Alloc
+	n := 0
+	for _, b := range ctor.Blocks {
+		for _, in := range b.Instrs {
+			if mc, ok := in.(*ssa.MakeClosure); ok && mc.Fn == ssa.Value(f) {
+				n++
+				if idx >= 0 && idx < len(mc.Bindings) {
+					cell, _ = mc.Bindings[idx].(*ssa.Alloc)
+				}
+			}
+		}
+	}
+	if n != 1 || cell == nil {
+		return "", false
+	}
+	pi := -1
+	stores := 0
+	for _, ref := range *cell.Referrers() {
+		switch x := ref.(type) {
+		case *ssa.Store:
+			if x.Addr != ssa.Value(cell) {
+				return "", false
+			}
+			stores++
+			for i, p := range ctor.Params {
+				if x.Val == ssa.Value(p) {
+					pi = i
+				}
+			}
+		case *ssa.MakeClosure, *ssa.DebugRef, *ssa.UnOp:
+		default:
+			return "", false
+		}
+	}
+	// the closure itself must not write the captured variable
+	for _, ref := range *fv.Referrers() {
+		if st, ok := ref.(*ssa.Store); ok && st.Addr == ssa.Value(fv) {
+			return "", false
+		}
+	}
+	if stores != 1 || pi < 0 {
+		return "", false
+	}
+	sl, ok := ctor.Params[pi].Type().Underlying().(*types.Slice)
+	if !ok {
+		return "", false
+	}
+	if _, isFn := sl.Elem().Underlying().(*types.Signature); !isFn {
+		return "", false
+	}
+	sites := 0
+	for _, g := range ctor.Pkg.Members {
+		gf, ok := g.(*ssa.Function)
+		if !ok {
+			continue
+		}
+		fns := append([]*ssa.Function{gf}, gf.AnonFuncs...)
+		for _, h := range fns {
+			for _, ci := range core.Calls(h) {
+				if ci.Common().StaticCallee() != ctor {
+					continue
+				}
+				sites++
+				if h.Name() != "init" || h.Synthetic == "" {
+					return "constructor " + ctor.Name() + " is called outside the package initialiser", true
+				}
+				arg, ok := ci.Common().Args[pi].(*ssa.Slice)
+				if !ok {
+					return "a call of " + ctor.Name() + " does not pass a literal list", true
+				}
+				arr, ok := arg.X.(*ssa.Alloc)
+				if !ok {
+					return "a call of " + ctor.Name() + " does not pass a literal list", true
+				}
+				for _, ref := range *arr.Referrers() {
+					ia, ok := ref.(*ssa.IndexAddr)
+					if !ok {
+						continue
+					}
+					for _, r2 := range *ia.Referrers() {
+						st, ok := r2.(*ssa.Store)
+						if !ok {
+							continue
+						}
+						switch e := core.Unwrap(st.Val).(type) {
+						case *ssa.Function, *ssa.MakeClosure:
+						case *ssa.UnOp:
+							eg, isG := e.X.(*ssa.Global)
+							if !isG || e.Op != token.MUL {
+								return "an element of the list given to " + ctor.Name() + " is not a function or package-level detector", true
+							}
+							fn, ct, _ := tree.ClosureOfGlobal(eg.Pkg, eg)
+							if fn == nil && ct == nil {
+								return "element " + eg.Name() + " is not a write-once detector", true
+							}
+							// stored before it is read here
+							before := false
+							for _, b := range h.Blocks {
+								for _, in := range b.Instrs {
+									if s2, ok := in.(*ssa.Store); ok && s2.Addr == ssa.Value(eg) && core.Before(s2, e) {
+										before = true
+									}
+								}
+							}
+							if !before {
+								return "element " + eg.Name() + " is read before it is initialised", true
+							}
+						default:
+							return "an element of the list given to " + ctor.Name() + " is not a function or package-level detector", true
+						}
+					}
+				}
+			}
+		}
+	}
+	if sites == 0 {
+		return "no construction found", true
+	}
+	return "", true
+}
 
 // upwardModel: the walk model, for its notion of "parent of" (field load or
 // accessor call); nil when the walk cannot be modelled.
